@@ -217,7 +217,10 @@ class C19(CfProp):
                 ambiguous = any(i.name in outcome_names | summed for k in evd if hasattr(k, "interventions") for i in k.interventions)
                 v2, reading = (None, "ambiguous") if ambiguous else self.truth_check(g, evd, expr, "factorised query", outcome_names)
                 if v2:
-                    violation, key = v2, "C19/factorization-value"
+                    # a non-event ancestor that is a copy (another world) of an outcome variable is never summed out: its base is an outcome base
+                    from y0.dsl import Intervention as _Iv
+                    free_copy = any(v.name in outcome_names and v not in evd for v in expr.get_variables() if not isinstance(v, _Iv))
+                    violation, key = v2, "C19/factorization-value" + ("/unsummed-copy-of-an-outcome-variable" if free_copy else "")
             nontrivial = True
         if violation is None and GG.snapshot(gr) != before:
             violation, key = f"{kind} modified the graph", "C19/mutation"
